@@ -392,7 +392,7 @@ def cases(tier, seed):
 def run(run):
     run.rule = (
         "E3: all reference graphs with n <= 2 (quick) / 3 (thorough) nodes over kinds " + repr(KINDS) + " with every reference slot in {absent, dangling, itself, each other node} "
-        "and nodes placed inside/outside defs; use / group-use / clip-path / gradient-href chains and cycles of length 1-3 (1-5), doubling chains of depth 1-4 (1-6); "
+        "and nodes placed inside/outside defs; use / group-use / clip-path / gradient-href chains and cycles of length 1-3 (1-5), doubling chains of depth 1-4 (1-6); the same cycles of length 1-3 with one link / every link spelled differently (5 padded-fragment forms for href, 6 padded / quoted forms for url()); "
         f"{len(malformed_docs())} malformed-value documents (each numeric attribute x " + repr(BADVALS) + "); 7 DOCTYPE/entity documents in a fresh interpreter under an open() monitor. "
         f"Each case: sandboxed fork, {CPU_BUDGET}s CPU-time budget (ITIMER_VIRTUAL), 1 GiB address space. Oracle: verdict in {{returned (must satisfy R4), raised}}; TIMEOUT/MEMORY/CRASH are violations; "
         "no canary file opened, no canary content in output. Non-trivial = document with at least one reference / malformed value / entity."
